@@ -28,6 +28,7 @@ type Options struct {
 	Verbose       int
 	SolverBin     []string
 	StopAtFirst   bool
+	WallLimit         time.Duration // give up exploring after this long (0: never)
 	GraceAfterFinding time.Duration // stop exploring this long after the first finding that is not a listed one (0: never)
 	Params        map[string]int
 	Known         map[string][]string // obligation label -> known-finding class labels
